@@ -1746,7 +1746,11 @@ func (q *checker) bcheckExprBinaryOp1(op t.ID, lhs *a.Expr, lb bounds, rhs *a.Ex
 			return nb, nil
 		case t.IDXBinaryTildeModShiftL:
 			nb, _ := lb.TryLsh(rb)
-			nb[1] = min(nb[1], typeBounds[1])
+			if nb[1].Cmp(typeBounds[1]) > 0 {
+				// Some high bits may be shifted out, after which the result can
+				// be any value of the type (not just one at or above nb[0]).
+				return typeBounds, nil
+			}
 			return nb, nil
 		case t.IDXBinaryShiftR:
 			nb, _ := lb.TryRsh(rb)
